@@ -149,7 +149,7 @@ def run(repo, res, tier):
         raise AnalysisError("Circle.__init__: expected one .buffer(..) call")
     arg = bufs[0].args[0] if bufs[0].args else None
     ok = arg is not None and C(arg, init) in ("radius", "self.radius")
-    res.check("G1-SHAPE-AGREE", "Circle geometry = point.buffer(<radius>)", ok, smod, bufs[0], "Circle buffer(%s)" % (norm(arg) if arg is not None else ""), "the exported disc does not have the circle's radius: lookups by shape disagree with contains_point", qualname=q)
+    res.check("G1-SHAPE-AGREE", "Circle geometry = point.buffer(<radius>)", ok, smod, bufs[0], "Circle buffer(%s)" % (C(arg, init).replace("self.", "") if arg is not None else ""), "the exported disc does not have the circle's radius: lookups by shape disagree with contains_point", qualname=q)
     pt = bufs[0].func.value
     ok = isinstance(pt, ast.Call) and norm(pt.func).endswith("Point") and [C(a, init) for a in pt.args] in (["self.center[0]", "self.center[1]"], ["self.center"], ["center[0]", "center[1]"], ["center"])
     res.check("G1-SHAPE-AGREE", "Circle geometry centred at the centre", ok, smod, bufs[0], "Circle point %s" % norm(pt), "the exported disc is not centred at the circle's centre", qualname=q)
@@ -175,45 +175,41 @@ def run(repo, res, tier):
     # ---------------------------------------------------------------- G1 rectangle
     rect = repo.cls(SH, "Rectangle")
     cv = rect.methods["_compute_vertices"]
-    mats = [n for n in walk_no_nested(cv) if isinstance(n, ast.List) and n.elts and all(isinstance(r, ast.List) and len(r.elts) == 2 for r in n.elts)]
-    if len(mats) != 1:
-        raise AnalysisError("Rectangle._compute_vertices: corner matrix not found")
+    # evaluated abstractly: the corner matrix handed to the placement, as linear forms in length and width
+    from ..strdom import Ctor as _Ctor, Ev as _Ev, ListV as _ListV, Obj as _Obj, Sym as _Sym, linear_of
+
+    _l, _w, _c, _o = _Sym("length", "num"), _Sym("width", "num"), _Sym("center", "num"), _Sym("orientation", "num")
+    _ev = _Ev(repo, opaque_calls={"rotate_translate", "translate_rotate"})
+    _ev.pure_modules = {"np", "numpy", "math"}
+    _r = _ev.call_fn(_ev.bind(cv, rect, _Obj(rect, {"_length": _l, "_width": _w, "_center": _c, "_orientation": _o})), [], {}, cv)
     corners = []
-    okm = True
-    for r in mats[0].elts:
+    okm = isinstance(_r, _Ctor) and _r.name in ("rotate_translate",) and len(_r.args) == 3
+    rows = None
+    if okm:
+        vals = list(_r.args.values())
+        m = vals[0]
+        if isinstance(m, _Ctor) and m.name in ("np.array", "numpy.array", "np.asarray"):
+            m = list(m.args.values())[0]
+        rows = m.items if isinstance(m, _ListV) and all(isinstance(x, _ListV) and len(x.items) == 2 for x in m.items) else None
+        okm = rows is not None and vals[1] is _c and vals[2] is _o
+    mats = [cv]
+    for r_ in rows or []:
         pair = []
-        for e, want in zip(r.elts, ("self.length", "self.width")):
-            sign = 1
-            x = e
-            if isinstance(x, ast.BinOp) and isinstance(x.op, ast.Mult):
-                f, p = x.left, x.right
-                if isinstance(f, ast.UnaryOp):
-                    sign = -1 if isinstance(f.op, ast.USub) else 1
-                    f = f.operand
-                if isinstance(p, ast.Constant) or (isinstance(p, ast.UnaryOp) and isinstance(p.operand, ast.Constant)):
-                    f, p = x.right, x.left
-                    if isinstance(f, ast.UnaryOp):
-                        sign = -1 if isinstance(f.op, ast.USub) else 1
-                        f = f.operand
-                if not (isinstance(f, ast.Constant) and f.value == 0.5 and C(p, cv) == want):
-                    okm = False
-            else:
+        for e_, want in zip(r_.items, ("length", "width")):
+            lf = linear_of(e_)
+            if lf is None or set(lf) != {want} or abs(abs(lf[want]) - 0.5) > 1e-12:
                 okm = False
-            pair.append(sign)
+                pair.append(0)
+            else:
+                pair.append(1 if lf[want] > 0 else -1)
         corners.append(tuple(pair))
     closed = len(corners) == 5 and corners[0] == corners[-1] and len(set(corners[:4])) == 4
     # consecutive corners differ in exactly one coordinate (a ring, not a bow-tie)
     ring = closed and all(sum(a != b for a, b in zip(corners[i], corners[i + 1])) == 1 for i in range(4))
     res.check("G1-SHAPE-AGREE", "Rectangle corners = (+-l/2, +-w/2) closed ring", okm and ring, smod, mats[0], "Rectangle corner matrix %s" % corners, "the vertex ring is not the l-by-w box (wrong half extents, missing corner, or self-intersecting order)", qualname="Rectangle._compute_vertices")
     rets = [n for n in walk_no_nested(cv) if isinstance(n, ast.Return)]
-    ok = False
-    if len(rets) == 1 and isinstance(rets[0].value, ast.Call) and norm(rets[0].value.func).endswith("rotate_translate") and len(rets[0].value.args) == 3:
-        a0, a1, a2 = rets[0].value.args
-        src = a0
-        if isinstance(a0, ast.Name):
-            ds = [d.node for d in ReachingDefs(cv).defs(a0.id, rets[0]) if d.node is not None]
-            src = ds[0] if len(ds) == 1 else a0
-        ok = any(x is mats[0] for x in ast.walk(src)) and C(a1, cv) == "self.center" and C(a2, cv) == "self.orientation"
+    # (decided above on the evaluated result: rotate_translate(<corner matrix>, centre, orientation))
+    ok = isinstance(_r, _Ctor) and _r.name == "rotate_translate" and rows is not None and list(_r.args.values())[1] is _c and list(_r.args.values())[2] is _o
     res.check("G1-SHAPE-AGREE", "Rectangle vertices placed by rotate_translate(corners, centre, orientation)", ok, smod, cv, "Rectangle._compute_vertices return %s" % (norm(rets[0].value) if rets else "?"), "the box is not rotated by its orientation and moved to its centre", qualname="Rectangle._compute_vertices")
     vg = repo.method(SH, "Rectangle", "vertices")
     ok = any(isinstance(n, ast.Call) and norm(n.func) == "self._compute_vertices" for n in walk_no_nested(vg))
@@ -274,59 +270,20 @@ def run(repo, res, tier):
                 res.check("G2-INDEX", "Lanelet.%s: polygon = right boundary + reversed left boundary" % mn, ok, lmod, n, "Lanelet.%s: self._polygon = %s" % (mn, norm(n.value)), "the lanelet polygon is not the ring right boundary followed by the reversed left boundary (self-intersecting or wrong area)", qualname="Lanelet." + mn)
     if n_poly < 3:
         raise AnalysisError("fewer than 3 assignments to Lanelet._polygon found")
-    # stores into the index
-    n_st = 0
-    for mn, fn in net.methods.items():
-        for n in walk_no_nested(fn):
-            if isinstance(n, ast.Assign) and isinstance(n.targets[0], ast.Subscript) and norm(n.targets[0].value) == "self._buffered_polygons":
-                n_st += 1
-                key = norm(n.targets[0].slice)
-                # find the sibling store self._lanelets[key] = X
-                sib = [s for s in walk_no_nested(fn) if isinstance(s, ast.Assign) and isinstance(s.targets[0], ast.Subscript) and norm(s.targets[0].value) == "self._lanelets" and norm(s.targets[0].slice) == key]
-                ok = len(sib) == 1 and norm(n.value) == "%s.polygon.shapely_object" % norm(sib[0].value) and key == "%s.lanelet_id" % norm(sib[0].value)
-                res.check("G2-INDEX", "%s: index[%s] = that lanelet's polygon geometry" % (mn, key), ok, lmod, n, "%s: %s" % (mn, norm(n)), "the geometry stored in the index for a lanelet id is not the polygon of the lanelet stored under that id", qualname="LaneletNetwork." + mn)
-            if isinstance(n, (ast.Assign, ast.AnnAssign)) and norm(n.targets[0] if isinstance(n, ast.Assign) else n.target) == "self._buffered_polygons" and mn not in ("__init__", "_create_strtree"):
-                n_st += 1
-                v = n.value
-                ok = isinstance(v, ast.DictComp) and norm(v.generators[0].iter) == "self._lanelets.items()" and isinstance(v.generators[0].target, ast.Tuple) and norm(v.key) == norm(v.generators[0].target.elts[0]) and norm(v.value) == "%s.polygon.shapely_object" % norm(v.generators[0].target.elts[1]) and not v.generators[0].ifs
-                res.check("G2-INDEX", "%s: index rebuilt from all lanelets" % mn, ok, lmod, n, "%s: %s" % (mn, norm(n)[:120]), "the rebuilt index does not map every lanelet id to that lanelet's polygon geometry", qualname="LaneletNetwork." + mn)
-    if n_st < 2:
-        raise AnalysisError("stores into _buffered_polygons not found")
-    cs = net.methods["_create_strtree"]
-    idm = [n for n in walk_no_nested(cs) if isinstance(n, ast.Assign) and norm(n.targets[0]) == "self._lanelet_id_index_by_id"]
-    tree = [n for n in walk_no_nested(cs) if isinstance(n, ast.Assign) and norm(n.targets[0]) == "self._strtee"]
-    ok = len(idm) == 1 and isinstance(idm[0].value, ast.DictComp)
+    # the network's index: every route that builds or changes a network is evaluated on a small symbolic network and
+    # the index invariant is checked on the resulting object (c06ev) — no layout of the code is assumed
+    from . import c06ev
+
+    c06ev.index_rules(repo, res)
+    # the cut-out route is too rich to evaluate (shape filtering): it must end by rebuilding the new network's index
+    fn = repo.method(LA, "LaneletNetwork", "create_from_lanelet_network")
+    rets = [s_ for s_ in walk_no_nested(fn) if isinstance(s_, ast.Return) and s_.value is not None]
+    ok = bool(rets) and all(isinstance(r_.value, ast.Name) for r_ in rets)
     if ok:
-        v = idm[0].value
-        g = v.generators[0]
-        ok = norm(g.iter) == "self._buffered_polygons.items()" and isinstance(g.target, ast.Tuple) and norm(v.key) == "id(%s)" % norm(g.target.elts[1]) and norm(v.value) == norm(g.target.elts[0]) and not g.ifs
-    res.check("G2-INDEX", "_create_strtree: id map = {id(polygon): lanelet id} over the buffered polygons", ok, lmod, cs, "_create_strtree id map", "tree hits cannot be mapped back to the right lanelet id", qualname="LaneletNetwork._create_strtree")
-    ok = len(tree) == 1 and norm(tree[0].value) in ("STRtree(list(self._buffered_polygons.values()))", "STRtree(self._buffered_polygons.values())")
-    res.check("G2-INDEX", "_create_strtree: tree over exactly the buffered polygons", ok, lmod, cs, "_create_strtree tree", "the tree does not contain exactly the polygons the id map knows", qualname="LaneletNetwork._create_strtree")
-    for mn, fn in net.methods.items():
-        if mn in ("_create_strtree", "__init__"):
-            continue
-        for n in walk_no_nested(fn):
-            if isinstance(n, (ast.Assign, ast.AnnAssign)) and norm(n.targets[0] if isinstance(n, ast.Assign) else n.target) == "self._lanelet_id_index_by_id":
-                res.bad("G2-INDEX", "%s assigns the id map" % mn, Finding("G2-INDEX", lmod, n, "%s: %s" % (mn, norm(n)[:100]), "the id map is rebuilt apart from the tree: ids of polygons no longer match tree geometries", qualname="LaneletNetwork." + mn))
-    # construction routes rebuild the index on the new object
-    routes = {
-        "__setstate__": "self._create_strtree",
-        "__deepcopy__": "result._create_strtree",
-        "create_from_lanelet_list": "lanelet_network._create_strtree",
-        "create_from_lanelet_network": "new_lanelet_network._create_strtree",
-    }
-    for mn, callee in routes.items():
-        fn = repo.method(LA, "LaneletNetwork", mn)
-        top = [s for s in fn.body if isinstance(s, ast.Expr) and isinstance(s.value, ast.Call) and norm(s.value.func) == callee]
-        rets = [s for s in walk_no_nested(fn) if isinstance(s, ast.Return) and s.value is not None]
-        ok = len(top) >= 1 and all(r.lineno > top[-1].lineno or mn == "__setstate__" for r in rets)
-        if rets and mn != "__setstate__":
-            ok = ok and norm(rets[-1].value) == callee.split(".")[0]
-        res.check("G2-INDEX", "%s rebuilds the index of the new network unconditionally" % mn, ok, lmod, fn, "%s -> %s" % (mn, callee), "a network built by this route answers lookups from a missing or foreign index", qualname="LaneletNetwork." + mn)
-    gs = repo.method(LA, "LaneletNetwork", "__getstate__")
-    ok = any(isinstance(n, ast.Delete) and norm(n.targets[0]) in ('state["_strtee"]', "state['_strtee']") for n in walk_no_nested(gs)) and any(isinstance(n, ast.Assign) and norm(n.value) == "self.__dict__.copy()" for n in walk_no_nested(gs))
-    res.check("G2-INDEX", "__getstate__ drops only the tree from a copy of the state", ok, lmod, gs, "__getstate__", "pickling removes the tree from the live object or keeps an unpicklable tree", qualname="LaneletNetwork.__getstate__")
+        nm = rets[-1].value.id
+        top = [s_ for s_ in fn.body if isinstance(s_, ast.Expr) and isinstance(s_.value, ast.Call) and norm(s_.value.func) == "%s._create_strtree" % nm]
+        ok = len(top) >= 1 and all(r_.lineno > top[-1].lineno for r_ in rets)
+    res.check("G2-INDEX", "create_from_lanelet_network rebuilds the index of the new network unconditionally", ok, lmod, fn, "create_from_lanelet_network -> _create_strtree", "a network built by this route answers lookups from a missing or foreign index", qualname="LaneletNetwork.create_from_lanelet_network")
 
     # ---------------------------------------------------------------- G3
     fs = lookup_rules(repo, res, "G3-LOOKUP")
